@@ -1592,13 +1592,20 @@ func (s *source) loopShareFetch() {
 					doneFetch <- false
 					return
 				}
-				fetched := s.shareFetch(doneFetch)
+				fetched, flushedAcks := s.shareFetch(doneFetch)
 				// If we fetched, any pending acks from this source's
 				// cursors were piggybacked on the request. Stop the
 				// ack timer; if more acks arrive between here and
 				// the next loop iteration, a signal is waiting in
 				// share.ackCh that will restart the timer.
-				if fetched {
+				//
+				// The same holds when there was nothing to fetch
+				// (all cursors paused, revoked, or moving) and
+				// shareFetch fell back to a standalone shareAck.
+				// Leaving the timer armed there keeps maybeFinish
+				// looping through empty shareFetch calls, with
+				// no blocking point, until the timer fires.
+				if fetched || flushedAcks {
 					stopAckTimer()
 				}
 				if !s.fetchState.maybeFinish(fetched || ackTimerC != nil) {
@@ -2384,8 +2391,9 @@ func coalesceAppendRange(out []shareAckRange, r shareAckRange) []shareAckRange {
 // shareFetch orchestrates a share fetch: send the request, handle
 // errors and backoff, apply leader moves, dispatch ack callbacks,
 // and buffer the result. Per-partition handling lives in
-// handleShareReqResp.
-func (s *source) shareFetch(doneFetch chan<- bool) (fetched bool) {
+// handleShareReqResp. flushedAcks reports that there was nothing to fetch
+// and pending acks went out in a standalone shareAck instead.
+func (s *source) shareFetch(doneFetch chan<- bool) (fetched, flushedAcks bool) {
 	sc := s.share.sc
 	req, usable, piggybackAcks, sentPiggyback, nAcks, staleResults, nStaleAcks, hasRenew := s.createShareReq(false)
 
@@ -2427,7 +2435,7 @@ func (s *source) shareFetch(doneFetch chan<- bool) (fetched bool) {
 
 	if req == nil { // nothing to fetch or forget; fallback to a shareAck
 		s.shareAck(nil)
-		return false
+		return false, true
 	}
 
 	sc.cfg.logger.Log(LogLevelDebug, "sending share fetch",
@@ -2486,7 +2494,7 @@ func (s *source) shareFetch(doneFetch chan<- bool) (fetched bool) {
 			for _, pa := range piggybackAcks {
 				pa.requeue(sc)
 			}
-			return false
+			return false, false
 		}
 		fetched = true
 	case <-ctx.Done():
@@ -2494,7 +2502,7 @@ func (s *source) shareFetch(doneFetch chan<- bool) (fetched bool) {
 		for _, pa := range piggybackAcks {
 			pa.requeue(sc)
 		}
-		return false
+		return false, false
 	}
 
 	var didBackoff bool
@@ -2528,7 +2536,7 @@ func (s *source) shareFetch(doneFetch chan<- bool) (fetched bool) {
 		s.resetShareSession()
 		backoff(err)
 		sc.enqueueAckErrors(piggybackAcks, err, nAcks)
-		return fetched
+		return fetched, false
 	}
 
 	resp := kresp.(*kmsg.ShareFetchResponse)
@@ -2543,7 +2551,7 @@ func (s *source) shareFetch(doneFetch chan<- bool) (fetched bool) {
 		// responses already back off; treat top-level errors the same.
 		sc.enqueueAckErrors(piggybackAcks, res.discardErr, nAcks)
 		backoff(res.discardErr)
-		return fetched
+		return fetched, false
 	}
 
 	if len(res.moves) > 0 {
@@ -2564,7 +2572,7 @@ func (s *source) shareFetch(doneFetch chan<- bool) (fetched bool) {
 	} else if res.allErrsStripped {
 		backoff("empty share fetch response due to all partitions having retryable errors")
 	}
-	return fetched
+	return fetched, false
 }
 
 // handleShareReqResp decodes partitions, bumps the session epoch,
